@@ -13,6 +13,9 @@ mod c07;
 mod c08;
 mod c09;
 mod c10;
+mod c11;
+mod c12;
+mod c13;
 
 use common::*;
 
@@ -36,6 +39,10 @@ fn main() {
         "c08" => c08::run(&args),
         "c09" => c09::run(&args),
         "c10" => c10::run(&args),
+        "c11" => c11::run(&args),
+        "c12" => c12::run(&args),
+        "c13" => c13::run(&args),
+        "c13truth" => c13::run_truth(&args),
         "c05depth" => c05::run_depth(&args),
         "c05case" => c05::run_one(&args),
         other => {
